@@ -1439,6 +1439,39 @@ fn cow_part(rep: &mut Report, tier: Tier) -> Vec<(String, String)> {
             }
         }
     }
+    // views of ONE buffer (the same allocation: nested, overlapping, same start and different lengths):
+    // comparisons are still comparisons of the bytes
+    {
+        let base: Vec<u8> = vec![1, 2, 1, 2, 1, 2, 3];
+        let shared = Bytes::from(base.clone());
+        let n = base.len();
+        for i in 0..=n {
+            for j in i..=n {
+                for k in 0..=n {
+                    for l in k..=n {
+                        let (a, b) = (&base[i..j], &base[k..l]);
+                        let want = format!("eq={} ord={}", a == b, ord_text(a.partial_cmp(b)));
+                        rep.case(Some(pvh::fnv(format!("view {i} {j} {k} {l}").as_bytes())));
+                        rep.count("cow/compare-views-of-one-buffer");
+                        for (sa, sb) in [(false, false), (false, true), (true, false), (true, true)] {
+                            let x = if sa { CowBytes::Static(shared.slice(i..j)) } else { CowBytes::Temporary(a) };
+                            let y = if sb { CowBytes::Static(shared.slice(k..l)) } else { CowBytes::Temporary(b) };
+                            let got = format!("eq={} ord={}", x == y, ord_text(x.partial_cmp(&y)));
+                            let hash_ok = (default_hash(&x) == default_hash(&y)) || a != b;
+                            if got != want || !hash_ok {
+                                cx.fails.push((
+                                    format!("compare views: {}[{i}..{j}] {}[{k}..{l}]", if sa { "S" } else { "T" }, if sb { "S" } else { "T" }),
+                                    "seg-compare",
+                                    format!("comparing the views [{i}..{j}] = {} and [{k}..{l}] = {} of one buffer {} gives `{got}`, the byte strings give `{want}` (hash consistent: {hash_ok})", hexd(a), hexd(b), hexd(&base)),
+                                    json!({"op": "cmpview", "i": i, "j": j, "k": k, "l": l, "sa": sa, "sb": sb}),
+                                ));
+                            }
+                        }
+                    }
+                }
+            }
+        }
+    }
     for (key, _cat, desc, replay) in cx.fails.drain(..) {
         rep.fail(FailKind::Impl, &key, &desc, replay);
     }
@@ -1589,6 +1622,26 @@ fn replay(path: &str) -> i32 {
                 println!("holds on this input");
             }
             rc
+        }
+        Some("cmpview") => {
+            let g = |k: &str| rp[k].as_u64().expect("index") as usize;
+            let (i, j, k, l) = (g("i"), g("j"), g("k"), g("l"));
+            let (sa, sb) = (rp["sa"].as_bool().unwrap_or(false), rp["sb"].as_bool().unwrap_or(false));
+            let base: Vec<u8> = vec![1, 2, 1, 2, 1, 2, 3];
+            let shared = Bytes::from(base.clone());
+            let (a, b) = (&base[i..j], &base[k..l]);
+            let x = if sa { CowBytes::Static(shared.slice(i..j)) } else { CowBytes::Temporary(a) };
+            let y = if sb { CowBytes::Static(shared.slice(k..l)) } else { CowBytes::Temporary(b) };
+            let got = format!("eq={} ord={}", x == y, ord_text(x.partial_cmp(&y)));
+            let want = format!("eq={} ord={}", a == b, ord_text(a.partial_cmp(b)));
+            println!("  views [{i}..{j}] = {} and [{k}..{l}] = {} of one buffer {}: implementation {got}, byte strings {want}", hexd(a), hexd(b), hexd(&base));
+            if got == want {
+                println!("holds on this input");
+                0
+            } else {
+                println!("FAILS [seg-compare]");
+                1
+            }
         }
         _ => {
             println!("replay: {rp}");
